@@ -76,7 +76,7 @@ def run_demo(pid, n, release):
     """-> (passes, transcript)"""
     d = SRC % pid
     prof = "--release" if release else ""
-    prefer_rs = os.path.exists("%s/demo%d.rs" % (d, n)) and (os.path.exists("%s/run_demo.sh" % d) or ROUND in ("3", "4", "5", "6", "7", "8", "9", "10", "11", "12"))
+    prefer_rs = os.path.exists("%s/demo%d.rs" % (d, n)) and (os.path.exists("%s/run_demo.sh" % d) or ROUND in ("3", "4", "5", "6", "7", "8", "9", "10", "11", "12", "13"))
     ydir = d
     if not os.path.exists("%s/demo%d.yl" % (d, n)) and os.path.isdir("%s/demo%d" % (d, n)):
         # the demonstration is a small directory tree of modules: run the script from the directory it lives in
@@ -148,7 +148,7 @@ def main():
     results = {}
     for pid, n in cands:
         key = seeded_id(pid, n)
-        if ROUND in ("6", "7", "8", "9", "10", "11", "12"):
+        if ROUND in ("6", "7", "8", "9", "10", "11", "12", "13"):
             # round 6 was assigned by subsystem (directories A..F); the kept change is filed under the property it breaks
             key = ("%s-r" + ROUND + "-%s%d") % (json.load(open((SRC % pid) + "/meta%d.json" % n))["property"], pid, n)
         patch = (SRC % pid) + "/patch%d.diff" % n
